@@ -392,7 +392,14 @@ def shared(ctx):
     for f in fns(ctx, "load"):
         calls = _calls(f, lambda s: (s.get("callee") or {}).get("name") == "lock_shared" and path(f, f.s(s.get("obj"))) == "this")
         ok = len(calls) == 1
-        ctx.ob(rid, ok, f.where, "load goes through lock_shared (and therefore through the drain)", "", fn=f.label, inst=f.qname)
+        if not calls:
+            # spelled out: the drain attempt first, then a shared acquisition of its own under which the value is copied
+            dp = _calls(f, lambda s: (s.get("callee") or {}).get("name") == "do_pending_writes" and path(f, f.s(s.get("obj"))) == "this")
+            la = ctx.eng.locks(f)
+            acq = [e for e in la.acquire_events if e[2].mutex == "this.m_mutex" and e[3] is True]
+            ok = bool(dp) and bool(acq) and all(any(f.dominates(f.pos_of(d), tuple(e[0])) for d in dp) for e in acq)
+        ctx.ob(rid, ok, f.where, "load goes through lock_shared (and therefore through the drain), or drains and locks itself",
+               "", fn=f.label, inst=f.qname)
     if n == 0:
         ctx.broken("no shared acquisition method of deferred_guarded instantiated")
 
